@@ -54,6 +54,11 @@ def htmlEscape : Str → Str
       (if c = 38 then cp "&amp;" else if c = 34 then cp "&quot;" else if c = 60 then cp "&lt;"
        else if c = 62 then cp "&gt;" else [c]) ++ htmlEscape cs
 
+/-- `_py_str_body`: `text.replace('\\', '\\\\').replace("'", "\\'")` — what must stand between the single quotes of a literal -/
+def pyStrBody : Str → Str
+  | [] => []
+  | c :: cs => (if c = 92 then [92, 92] else if c = 39 then [92, 39] else [c]) ++ pyStrBody cs
+
 /-- chevron renders `None` as the empty string -/
 def orEmpty : Option Str → Str
   | some s => s
@@ -378,7 +383,7 @@ structure Module where
 def genEnum (e : EnumEl) : Except Err EnumDecl := do
   let t ← typeDef e.ty
   let quote := t.hint == cp "str"
-  pure ⟨e.name, e.values.map fun v => (v.name, ⟨quote, htmlEscape v.value⟩)⟩
+  pure ⟨e.name, e.values.map fun v => (v.name, ⟨quote, if quote then pyStrBody v.value else v.value⟩)⟩
 
 /-- the array count class: `'uint_2_be' if self.endian == 'big' else 'uint_2'` -/
 def countCls (endian : Option Str) : Str :=
@@ -413,17 +418,20 @@ def typeAndHint (d : Definitions) (f : FieldDef) : Except Err (Str × Str) :=
         | .error err => .error err
         | .ok e => .ok (e.cls, e.hint)
 
-/-- the array wrapping and the `(length=…)` suffix; second component: how many `list[…]` the hint gets -/
-def fieldTyExpr (f : FieldDef) (type_ : Str) : TyExpr × Nat :=
-  let endian := countCls f.endian
-  let base : TyExpr × Nat :=
-    match f.array with
-    | none => (.cls type_, 0)
-    | some a =>
-      if a == cp "double" then (.array (.array (.cls type_) (.cls endian)) (.cls endian), 2)
-      else (.array (.cls type_) (.cls endian), 1)
+/-- the element type: fixed-length strings are instantiated with their length -/
+def elemExpr (f : FieldDef) (type_ : Str) : TyExpr :=
   let isFixedLenStr := f.ty == some (fixedId false) || f.ty == some (fixedId true)
-  (if isFixedLenStr then TyExpr.callLen base.1 (orNone f.length) else base.1, base.2)
+  if isFixedLenStr then .callLen (.cls type_) (orNone f.length) else .cls type_
+
+/-- the array wrapping around the element type; second component: how many `list[…]` the hint gets -/
+def fieldTyExpr (f : FieldDef) (type_ : Str) : TyExpr × Nat :=
+  let elem := elemExpr f type_
+  let endian := countCls f.endian
+  match f.array with
+  | none => (elem, 0)
+  | some a =>
+    if a == cp "double" then (.array (.array elem (.cls endian)) (.cls endian), 2)
+    else (.array elem (.cls endian), 1)
 
 /-- `'Char' in type_ or 'String' in type_` -/
 def quoteOf (ty : TyExpr) : Bool := isInfix (cp "Char") ty.render || isInfix (cp "String") ty.render
@@ -441,7 +449,7 @@ def genField (d : Definitions) (f : FieldDef) : Except Err FieldDecl :=
         ty := tyd.1
         dflt := match f.dflt with
           | none => none
-          | some v => some ⟨quoteOf tyd.1, htmlEscape v⟩
+          | some v => some ⟨quoteOf tyd.1, if quoteOf tyd.1 then pyStrBody v else v⟩
         hintBase := hint
         hintDepth := tyd.2 }
 
@@ -571,9 +579,19 @@ def Env.get (env : Env) (n : Str) : Except Err Binding :=
   | some b => .ok b
   | none => .error .other
 
-/-- characters that cannot stand unescaped between single quotes: NUL, LF, CR, `'`, `\`.
-    (Backslash escapes are not modelled: any backslash counts as an error.) -/
-def quotedOk (s : Str) : Bool := s.all fun c => !(c == 0 || c == 10 || c == 13 || c == 39 || c == 92)
+/-- the text of a single-quoted literal → the string it evaluates to.  NUL, LF, CR and a bare `'` cannot stand between
+    the quotes; of the backslash escapes only `\\` and `\'` (the two the generator emits) are modelled, any other is an error. -/
+def unquote : Str → Except Err Str
+  | [] => .ok []
+  | c :: cs =>
+    if c = 92 then
+      match cs with
+      | d :: ds => if d = 92 ∨ d = 39 then (match unquote ds with | .ok r => .ok (d :: r) | .error e => .error e) else .error .other
+      | [] => .error .other
+    else if c = 0 ∨ c = 10 ∨ c = 13 ∨ c = 39 then .error .other
+    else (match unquote cs with | .ok r => .ok (c :: r) | .error e => .error e)
+
+def quotedOk (s : Str) : Bool := (unquote s).isOk
 
 /-- a bare literal the model evaluates: a decimal integer with optional minus sign, `True`, `False` -/
 def rawOk (s : Str) : Bool :=
@@ -585,7 +603,7 @@ def rawOk (s : Str) : Bool :=
 def Lit.syntaxOk (l : Lit) : Bool := if l.quoted then quotedOk l.text else rawOk l.text
 
 def Lit.eval (l : Lit) : Except Err DVal :=
-  if l.quoted then (if quotedOk l.text then .ok (.str l.text) else .error .other)
+  if l.quoted then (match unquote l.text with | .ok t => .ok (.str t) | .error e => .error e)
   else if l.text == cp "True" then .ok (.bool true)
   else if l.text == cp "False" then .ok (.bool false)
   else match l.text with
@@ -628,10 +646,9 @@ def evalTy (env : Env) : TyExpr → Except Err Ty
   | .array e c => do
       let te ← evalTy env e
       let tc ← evalTy env c
-      -- `Array.__attrs_post_init__`: `issubclass(self.type, RecordWithPresentBit)` needs a class, then `self.type.to_bytes`
+      -- `Array.__attrs_post_init__`: `inspect.isclass(self.type) and issubclass(…)`, then `self.type.to_bytes` / `.from_bytes`
+      -- (classes and parametrised instances — `FixedAsciiString(length=n)`, another `Array` — both have them)
       match te with
-      | .fixed .. => throw .type
-      | .array .. => throw .type
       | .other => throw .attr                 -- approximation: other objects are taken to have no `to_bytes`
       | _ => pure (.array te tc)
   | .callLen e l => do
@@ -718,14 +735,16 @@ def evalMessage (impl : Impl) (env : Env) (reg : List (Nat × Str)) (g : MsgDecl
   | _ => throw .type
   let fs ← evalBody env g.fields
   let id := digitsVal g.indicator
-  if reg.any (idEq impl (id, g.direction)) then throw .dup
-  pure ⟨g.name, id, if impl = .itch then none else some g.direction, fs⟩
+  let dir ← unquote g.direction
+  if reg.any (idEq impl (id, dir)) then throw .dup
+  pure ⟨g.name, id, if impl = .itch then none else some dir, fs⟩
 
 def evalMessages (impl : Impl) : Env → List (Nat × Str) → List MsgDecl → Except Err (List MsgS)
   | _, _, [] => .ok []
   | env, reg, g :: gs => do
       let s ← evalMessage impl env reg g
-      let ss ← evalMessages impl ((g.name, .msgCls) :: env) ((s.id, g.direction) :: reg) gs
+      let dir ← unquote g.direction
+      let ss ← evalMessages impl ((g.name, .msgCls) :: env) ((s.id, dir) :: reg) gs
       pure (s :: ss)
 
 /-- `import module` -/
@@ -884,10 +903,9 @@ def denote (impl : Impl) (s : Spec) : Except Err Schema := do
 
 /-! ## well-formed specifications: the domain the property quantifies over -/
 
-/-- a character that is emitted verbatim and needs no escaping inside a quoted Python literal: not one of
-    `& " < >` (HTML-escaped by the renderer — known finding) and not NUL, LF, CR, `'`, `\` (known finding) -/
-def plainChar (c : Nat) : Bool :=
-  !(c == 0 || c == 10 || c == 13 || c == 34 || c == 38 || c == 39 || c == 60 || c == 62 || c == 92)
+/-- a character that can be a character constant: anything but NUL and the line breaks LF / CR (they cannot stand inside a
+    single-quoted literal and the generator does not escape them) -/
+def plainChar (c : Nat) : Bool := !(c == 0 || c == 10 || c == 13)
 
 def plainText (s : Str) : Bool := s.all plainChar
 
@@ -955,8 +973,7 @@ def wfType (s : Spec) (seen : List Str) (f : FieldEl) : Option (Option (PrimKind
         match docPrim t, docFixed t with
         | some p, _ => some (some (p.kind, p.isChar))
         | none, some _ =>
-            -- an array of fixed-length strings is excluded: known finding (the generated expression does not import)
-            if (f.length.bind parseNat?).isSome && f.array.isNone then some (some (.text, false)) else none
+            if (f.length.bind parseNat?).isSome then some (some (.text, false)) else none
         | none, none => none
 
 def wfDefault (dom : Option (PrimKind × Bool)) (f : FieldEl) : Bool :=
@@ -1016,9 +1033,9 @@ def regOk (impl : Impl) : List (Nat × Str) → List (Nat × Str) → Bool
 def classNames (s : Spec) : List Str :=
   s.enums.map (·.name) ++ s.records.map (·.name) ++ s.messages.map (·.name)
 
-/-- the specifications the property quantifies over.  Excluded, each with a known finding or a stated reason:
-    arrays of fixed-length strings; characters `& " < > ' \` and line breaks in character constants;
-    `array="double"`, `ref=`, boolean constants (undocumented); names that are not fresh ASCII identifiers. -/
+/-- the specifications the property quantifies over.  Outside, each for a stated reason: `array="double"`, `ref=`, boolean
+    constants (undocumented); NUL / line breaks in character constants; non-canonical decimal numbers; names that are not
+    fresh ASCII identifiers; a record that uses a record declared after it. -/
 def wfSpec (impl : Impl) (s : Spec) : Bool :=
   (classNames s).all (fun n => isIdent n && !(reservedNames impl).contains n) && !hasDup (classNames s)
   && s.enums.all wfEnum
